@@ -74,6 +74,8 @@ def main(argv=None):
         return 0
 
     tasks = P.tasks(a.tier, seed)
+    from vf.contracts import purity
+    tasks = tasks + [t for t in purity.tasks_for(a.prop) if t["id"] not in {x["id"] for x in tasks}]      # frame: no hidden state in the modules this property's contracts quantify over
     if a.only:
         tasks = [t for t in tasks if a.only in t["id"]]
         if not os.environ.get("VERIF_OUT"):
